@@ -5,9 +5,9 @@ M_CQ = "clikit.ui.components.choice_question"
 R.shape("ChoiceQuestion", external=True, _multi_select="bool", _error_message="str")
 R.shape("SelectChoiceValidator", _question="ref ChoiceQuestion", _values="list[str]")
 R.contract(M_CQ + ":ChoiceQuestion.supports_multiple_choices", params={}, returns="bool",
-           ensures=["result == self._multi_select"], modifies=[], assumed=True)
+           ensures=["result == self._multi_select"], modifies=[])
 R.contract(M_CQ + ":ChoiceQuestion.error_message", params={}, returns="str", ensures=["result == self._error_message"],
-           modifies=[], assumed=True).is_property = True
+           modifies=[]).is_property = True
 VALIDATE = M_CQ + ":SelectChoiceValidator.validate"
 R.abstractions = getattr(R, "abstractions", {})
 R.abstractions[VALIDATE] = [
@@ -50,3 +50,5 @@ for variant, sel_kind, multi in (("single_str", "str", False), ("single_int", "i
         fingerprint="value in selected_choices",
     )
 TARGETS = [{"qual": VALIDATE, "tag": v} for v in ("single_str", "single_int", "multi")]
+# the two getters the validator reads are verified themselves (they return the stored fields), not assumed
+TARGETS += [M_CQ + ":ChoiceQuestion.supports_multiple_choices", M_CQ + ":ChoiceQuestion.error_message"]
